@@ -18,6 +18,7 @@ var yieldSites = []string{
 	"hc.closing.1", "hc.closing.2", "mr.read.ret", "closeread.start", "closeread.closed", "ping.registered",
 	"closeMu.before",
 	"wf.header", "wf.payload", "ping.listed", "closeread.registered", "close.handshaken",
+	"dial.key", // (no connection yet: the hook is called with a nil *Conn)
 }
 
 type yieldState struct {
